@@ -106,14 +106,57 @@ func (x InstCase) expectOK() bool {
 	return x.complete()
 }
 
+// declInstClass declares the (optional) abstract middle class `mid` and the concrete class `name` of one
+// cell; `extra` is added to the body of `name`.
+func declInstClass(sb *strings.Builder, tag, name, mid string, x InstCase, extra string) {
+	parent := ""
+	if x.Base > 0 {
+		parent = baseName[x.Base] + tag
+	}
+	if x.Mid >= 0 {
+		ext := ""
+		if parent != "" {
+			ext = " extends " + parent
+		}
+		fmt.Fprintf(sb, "abstract class %s%s {", mid, ext)
+		if x.Mid&1 != 0 {
+			sb.WriteString(" public function am() { return 1; }")
+		}
+		if x.Mid&2 != 0 {
+			sb.WriteString(" public function im() { return 1; }")
+		}
+		sb.WriteString(" }\n")
+		parent = mid
+	}
+	decl := "class " + name
+	if parent != "" {
+		decl += " extends " + parent
+	}
+	if x.Ifc > 0 {
+		decl += " implements " + ifcName[x.Ifc] + tag
+	}
+	sb.WriteString(decl + " {")
+	for i, m := range instMeth {
+		if x.Own&(1<<i) != 0 {
+			fmt.Fprintf(sb, " public function %s() { return 1; }", m)
+		}
+	}
+	sb.WriteString(extra + " }\n")
+}
+
+// instPrelude: the shared interfaces and abstract classes of the instantiation fixtures.
+func instPrelude(sb *strings.Builder, tag string) {
+	fmt.Fprintf(sb, "interface I%s { public function im(); }\ninterface J%s extends I%s { public function jm(); }\n", tag, tag, tag)
+	fmt.Fprintf(sb, "abstract class AB%s { abstract public function am(); public function cm() { return 1; } }\n", tag)
+	fmt.Fprintf(sb, "abstract class AB2%s extends AB%s { abstract public function am2(); }\n", tag, tag)
+	fmt.Fprintf(sb, "abstract class AB2J%s extends AB%s implements J%s { abstract public function am2(); }\n", tag, tag, tag)
+	fmt.Fprintf(sb, "abstract class SA%s { abstract public static function sam(); }\n", tag)
+}
+
 func instScript(tag string, cases []InstCase) string {
 	var sb strings.Builder
 	sb.WriteString("<?php\n")
-	fmt.Fprintf(&sb, "interface I%s { public function im(); }\ninterface J%s extends I%s { public function jm(); }\n", tag, tag, tag)
-	fmt.Fprintf(&sb, "abstract class AB%s { abstract public function am(); public function cm() { return 1; } }\n", tag)
-	fmt.Fprintf(&sb, "abstract class AB2%s extends AB%s { abstract public function am2(); }\n", tag, tag)
-	fmt.Fprintf(&sb, "abstract class AB2J%s extends AB%s implements J%s { abstract public function am2(); }\n", tag, tag, tag)
-	fmt.Fprintf(&sb, "abstract class SA%s { abstract public static function sam(); }\n", tag)
+	instPrelude(&sb, tag)
 	fmt.Fprintf(&sb, "function icell%s($id, $f) {\n  try { $v = $f(); $r = \"ok\"; } catch (\\Throwable $e) { $r = \"denied=\" . get_class($e) . \"|\" . $e->getMessage(); }\n  echo \"\\n#\", $id, \":\", $r, \"\\n\";\n}\n", tag)
 	for id, x := range cases {
 		switch x.Spec {
@@ -133,39 +176,7 @@ func instScript(tag string, cases []InstCase) string {
 			fmt.Fprintf(&sb, "class SI%s_%d extends SA%s { }\nicell%s(%d, fn() => new SI%s_%d());\n", tag, id, tag, tag, id, tag, id)
 			continue
 		}
-		parent := ""
-		if x.Base > 0 {
-			parent = baseName[x.Base] + tag
-		}
-		if x.Mid >= 0 {
-			ext := ""
-			if parent != "" {
-				ext = " extends " + parent
-			}
-			fmt.Fprintf(&sb, "abstract class Mid%s_%d%s {", tag, id, ext)
-			if x.Mid&1 != 0 {
-				sb.WriteString(" public function am() { return 1; }")
-			}
-			if x.Mid&2 != 0 {
-				sb.WriteString(" public function im() { return 1; }")
-			}
-			sb.WriteString(" }\n")
-			parent = fmt.Sprintf("Mid%s_%d", tag, id)
-		}
-		decl := fmt.Sprintf("class C%s_%d", tag, id)
-		if parent != "" {
-			decl += " extends " + parent
-		}
-		if x.Ifc > 0 {
-			decl += " implements " + ifcName[x.Ifc] + tag
-		}
-		sb.WriteString(decl + " {")
-		for i, m := range instMeth {
-			if x.Own&(1<<i) != 0 {
-				fmt.Fprintf(&sb, " public function %s() { return 1; }", m)
-			}
-		}
-		sb.WriteString(" }\n")
+		declInstClass(&sb, tag, fmt.Sprintf("C%s_%d", tag, id), fmt.Sprintf("Mid%s_%d", tag, id), x, "")
 		fmt.Fprintf(&sb, "icell%s(%d, fn() => new C%s_%d());\n", tag, id, tag, id)
 	}
 	return sb.String()
